@@ -676,10 +676,12 @@ pub fn connect<'a, E: Copy + Debug>(
     term1: &'a RefCell<Terminal<'a, E>>,
     term2: &'a RefCell<Terminal<'a, E>>,
 ) {
+    //Disconnecting a terminal mutably borrows its old partner, which may be the other argument, so each
+    //terminal is disconnected before both are borrowed together.
+    term1.borrow_mut().disconnect();
+    term2.borrow_mut().disconnect();
     let mut term1_borrow = term1.borrow_mut();
     let mut term2_borrow = term2.borrow_mut();
-    term1_borrow.disconnect();
-    term2_borrow.disconnect();
     term1_borrow.other = Some(term2);
     term2_borrow.other = Some(term1);
 }
